@@ -28,14 +28,21 @@ Definition header_ipld (alg ver : bstr) : ipld :=
   struct_map [field k_alg (IString alg); field k_ucv (IString ver); field k_typ (IString (bs "JWT"))].
 
 (* formatter.FormatSignPayload: the exact bytes handed to Sign / Verify *)
+Definition sign_bytes (alg ver : bstr) (payload : ipld) : bstr :=
+  b64url (json_encode (header_ipld alg ver)) ++ 46 :: b64url (json_encode payload).
 Definition sign_payload_of (alg : bstr) (t : utoken) (full : bool) : bstr :=
-  b64url (json_encode (header_ipld alg (u_v t))) ++ 46 :: b64url (json_encode (payload_ipld t full)).
+  sign_bytes alg (u_v t) (payload_ipld t full).
 Definition sign_payload (alg : bstr) (t : utoken) : bstr := sign_payload_of alg t true.
 
 (* the formatter succeeds (no caveat / fact integer outside int64) *)
 Definition sign_payload_ok (t : utoken) : bool := json_encodable (payload_ipld t true).
 Definition sign_payload_opt (alg : bstr) (t : utoken) : option bstr :=
-  if sign_payload_ok t then Some (sign_payload alg t) else None.
+  let p := payload_ipld t true in
+  if json_encodable p then Some (sign_bytes alg (u_v t) p) else None.
+
+Lemma sign_payload_opt_eq alg t :
+  sign_payload_opt alg t = if sign_payload_ok t then Some (sign_payload alg t) else None.
+Proof. reflexivity. Qed.
 
 Section Sign.
   (* symbolic crypto: key ids, signing is deterministic *)
@@ -72,7 +79,7 @@ Section Sign.
     verify (issue k ver aud att prf exp fct nnc nbf) k = true.
   Proof using valid_sign.
     unfold verify, issue. cbn [u_iss u_s]. rewrite beq_refl. cbn [andb].
-    unfold sign_payload_of, payload_ipld, prf_list. cbn [u_v u_iss u_aud u_att u_prf u_exp u_fct u_nnc u_nbf]. apply valid_sign.
+    unfold sign_payload_of, sign_bytes, payload_ipld, prf_list. cbn [u_v u_iss u_aud u_att u_prf u_exp u_fct u_nnc u_nbf]. apply valid_sign.
   Qed.
 
   (* transport: the decoded token (caveats / facts in canonical form) still verifies *)
@@ -115,7 +122,7 @@ Section Sign.
   (* the signed bytes do not depend on the order of the entries of caveat / fact maps *)
   Lemma sign_payload_canon alg t full : sign_payload_of alg (canon_token t) full = sign_payload_of alg t full.
   Proof using.
-    unfold sign_payload_of. cbn [canon_token u_v]. do 3 f_equal.
+    unfold sign_payload_of, sign_bytes. cbn [canon_token u_v]. do 3 f_equal.
     rewrite <- (json_encode_canon (payload_ipld (canon_token t) full)), payload_canon, json_encode_canon. reflexivity.
   Qed.
 
@@ -159,7 +166,7 @@ Theorem sign_payload_halves alg alg' t t' full full' :
   json_encode (header_ipld alg (u_v t)) = json_encode (header_ipld alg' (u_v t')) /\
   json_encode (payload_ipld t full) = json_encode (payload_ipld t' full').
 Proof.
-  intros Sh Sh' Sp Sp' E. unfold sign_payload_of in E.
+  intros Sh Sh' Sp Sp' E. unfold sign_payload_of, sign_bytes in E.
   apply dot_split in E; try apply b64url_no_dot. destruct E as [E1 E2].
   split; apply b64url_inj; auto; apply jprint_bytes, jok_to_json; assumption.
 Qed.
